@@ -144,9 +144,11 @@ Theorem C04_process_synced : forall (S : Z -> Z) (F : option Z) have irs c s cx 
   tcp_process cx s ip r = Ok (s', rep, tags) ->
   reply_ok s' rep /\
   (rx_synced S F (have_seg have c s r) irs c s' \/
-   (rx_unsynced s' /\ s_state s' = Listen /\ rep = None /\ c = 0)) /\
+   (rx_unsynced s' /\ s_state s' = Listen /\ rep = None /\ c = 0 /\
+    rb_len (s_rx_buffer s) = 0 /\ s_rx_fin_received s = false)) /\
   beyond_untouched s' s /\
-  (s_rx_fin_received s' = true -> s_rx_fin_received s = true \/ r_control r = CFin).
+  (s_rx_fin_received s' = true -> s_rx_fin_received s = true \/ r_control r = CFin) /\
+  wsq c s <= wsq c s'.
 Proof. exact process_synced. Qed.
 Print Assumptions C04_process_synced.
 
